@@ -7,7 +7,7 @@ from vlib import core, treegen as T, sandbox as SB, lhaenc as E, lhnewgen as LG,
 ID = "C06"
 LEAN_MODULES = ["LhasaV.Props.C06"]
 VH_FEATURES = []
-THEOREMS = {"glob_iff": "full: match_glob = wildcard semantics for every pattern and string", "select_spec": "full", "glob_literal": "full", "glob_trailing_stars": "full",
+THEOREMS = {"macbinary_layout_matches_source": "full (translator tie): the model's MacBinary header test is the source's over the regenerated layout macros", "glob_iff": "full: match_glob = wildcard semantics for every pattern and string", "select_spec": "full", "glob_literal": "full", "glob_trailing_stars": "full",
             "macbinary_strip": "full: recognised envelope -> data fork (or resource fork)", "macbinary_keep": "full", "mac_header_spec": "full: field-by-field characterisation",
             "no_filter_selects_all": "full", "flatten_ignores_path": "full", "flatten_single_component": "full", "relocate_prefix": "full",
             "extract_reproduces_tree": "FULL, end to end on bytes: for every well-formed encodable tree, lha x of the archive that encodes it (headers by the C05 "
@@ -42,7 +42,7 @@ THEOREMS = {"glob_iff": "full: match_glob = wildcard semantics for every pattern
             "access_regimes": "full", "sample_tree_extracts": "non-vacuity on real archive bytes (kernel evaluation of parser+reader)",
             "dir_entry_for_existing_dir_ignored": "fact outside the domain (contents before their directory entry)",
             "(options i, w=, wildcards, pre-existing files, dangerous links: resulting tree)": "correspondence: real tree = independent oracle = Fs/Extract model"}
-TRUSTED = ["abstract file system LhasaV.Model.Fs and extraction model LhasaV.Model.Extract (x/e loop with wildcard filter, overwrite "
+TRUSTED = ["gen/ext_tool.c + gcc: MacBinary layout macros of lib/macbinary.c", "abstract file system LhasaV.Model.Fs and extraction model LhasaV.Model.Extract (x/e loop with wildcard filter, overwrite "
            "policy, parent creation, two-stage directories, placeholders, print command), tied to the real tool by complete-tree / "
            "stdout comparison on every generated run, as root and as an unprivileged user",
            "the expected tree is computed by an independent oracle (props/C06.py: expected_tree) straight from the generated entries",
